@@ -56,10 +56,23 @@ func kindShort(k int) string {
 	return "M"
 }
 
-const numBaseShapes = 6
+// shapes 0..5 are the core family; 6..8 are the extended ones (used at nesting
+// depth <= 2): a flow that contains ITSELF as a node, a dead edge on the empty
+// action, and a flow with retries configured on the flow itself.
+const (
+	numCoreShapes = 6
+	numBaseShapes = 9
+	shSelfRec     = 6
+	shEmptyEdge   = 7
+	shFlowRetry   = 8
+)
 
-var baseSlots = [numBaseShapes]int{1, 2, 3, 3, 2, 2}
-var baseNames = [numBaseShapes]string{"chain1", "chain2", "chain3", "branch", "loop", "nilend"}
+var baseSlots = [numBaseShapes]int{1, 2, 3, 3, 2, 2, 2, 3, 2}
+var baseNames = [numBaseShapes]string{"chain1", "chain2", "chain3", "branch", "loop", "nilend", "selfrec", "emptyedge", "flowretry2"}
+
+func (d *shapeDesc) uses(base int) bool {
+	return d != nil && (d.base == base || d.inner.uses(base))
+}
 
 // shapeDesc identifies one member of the family: base shape, and optionally
 // which slot holds a nested flow of which description.
@@ -82,16 +95,32 @@ func (d *shapeDesc) String() string {
 }
 
 // enumShapes lists all descriptions up to nesting depth `depth` (1 = flat).
+// enumShapes: the core family to the given depth, plus every shape of depth <= 2
+// that uses an extended base shape.
 func enumShapes(depth int, withReuse bool) []*shapeDesc {
+	res := enumShapesN(depth, withReuse, numCoreShapes)
+	d2 := 2
+	if depth < 2 {
+		d2 = depth
+	}
+	for _, d := range enumShapesN(d2, withReuse, numBaseShapes) {
+		if d.uses(shSelfRec) || d.uses(shEmptyEdge) || d.uses(shFlowRetry) {
+			res = append(res, d)
+		}
+	}
+	return res
+}
+
+func enumShapesN(depth int, withReuse bool, nb int) []*shapeDesc {
 	var res []*shapeDesc
-	for b := 0; b < numBaseShapes; b++ {
+	for b := 0; b < nb; b++ {
 		res = append(res, &shapeDesc{base: b, slot: -1})
 	}
 	if depth <= 1 {
 		return res
 	}
-	inner := enumShapes(depth-1, withReuse)
-	for b := 0; b < numBaseShapes; b++ {
+	inner := enumShapesN(depth-1, withReuse, nb)
+	for b := 0; b < nb; b++ {
 		for s := 0; s < baseSlots[b]; s++ {
 			for _, in := range inner {
 				res = append(res, &shapeDesc{base: b, slot: s, inner: in})
@@ -135,6 +164,15 @@ func (g *shapeGen) build(d *shapeDesc, path string) *spec {
 	case 5:
 		e(slots[0], "go", nil)
 		e(slots[0], "r", slots[1])
+	case shSelfRec:
+		e(slots[0], "again", root) // the flow is a node of itself
+		e(root, "l", slots[1])     // routed on the action the inner activation ends with
+	case shEmptyEdge:
+		e(slots[0], "", slots[1]) // a dead edge: a successful node never presents the empty action
+		e(slots[0], "go", slots[2])
+	case shFlowRetry:
+		e(slots[0], "go", slots[1])
+		root.n = 2 // WithMaxRetries(2) on the flow's own BaseNode: a failing child re-runs the whole flow
 	}
 	return root
 }
